@@ -88,6 +88,11 @@ def build(case):
         t = tables[ti]
         tcfg = cfg.get(t) or {'x': {'start': 19, 'end': 60}}
         body = body_for(tcfg, rowno + case.get('seed', 0))
+        if case.get('idlike'):
+            # column text that spells a table id / sub id / the trailer text at the places where the OTHER
+            # representation keeps such things
+            other = tables[(ti + 1) % len(tables)]
+            body = [other, t, 'IP0000T1', 'TRAILER '][rowno % 4] + subs[(ti + 1) % len(subs)] + body[11:]
         row, ts, code = data_row(t, subs[ti], body, rowno, expanded)
         recs.append(row)
         if t == want and t in cfg:
@@ -300,6 +305,12 @@ def enumerate_cases(tier, seed):
                 cases.append(dict(base, tables=tl, subs=['036', '360', '063', '603', '001'],
                                   order=[0, 1, 2, 3, 4, 3, 2, 1, 0], want=want, expanded=expanded, enc=enc,
                                   blocked=blocked))
+    # (d3) column text that looks like identifiers (table ids, sub ids) of this or another table
+    for want in std:
+        for expanded in (False, True):
+            for enc, blocked in (('latin_1', False), ('cp500', True)):
+                cases.append(dict(base, tables=std, subs=SUB_POOL[:4], order=[0, 1, 2, 3, 0, 1, 2, 3, 3, 2, 1, 0],
+                                  want=want, expanded=expanded, enc=enc, blocked=blocked, idlike=True))
     # (e) refusals
     for expanded in (False, True):
         for blocked in (False, True):
@@ -350,7 +361,7 @@ def describe(tier, seed):
                 'to the four configured tables x each requested table x compressed/expanded; (b) for every ordered pair '
                 'of tables every multiset of 0..2 rows each and EVERY interleaving; (c) every count vector 0..2 over '
                 'four tables in cyclic order with rows of an unconfigured table in between; (d) generated layouts '
-                '(adjacent 1-wide columns, gaps, single column), a table listed in the index under two sub-ids; (e) missing trailer / unconfigured table must raise '
+                '(adjacent 1-wide columns, gaps, single column), a table listed in the index under two sub-ids, column text that spells table ids / sub ids; (e) missing trailer / unconfigured table must raise '
                 'MciIpmDataError; (f) through mci_ipm_param_to_csv (function, cli_run and argument-parser entry on real files); (g) two or three readers in one process on files with different '
                 'sub-id assignments (and rows whose sub-id is missing from their own index), opened and drained side '
                 'by side, alternately and one after another. latin_1/cp500, VBS/1014. Oracle: exactly the '
